@@ -105,7 +105,11 @@ def finish(mod, prop, tier, seed, acc, info, wall, write_evidence=True):
         k = known_sigs[v["signature"]]
         print(f"KNOWN-FINDING: property={prop} {k.get('what_fails', v['what'])} [{v['signature']}] ({v['count']} cases)")
     paths = []
-    for v in new:
+    new.sort(key=lambda v: tuple(v["_key"]))
+    MAXREP = 25
+    if len(new) > MAXREP:
+        print(f"  ({len(new)} distinct violation signatures; writing replays for the {MAXREP} smallest cases)")
+    for v in new[:MAXREP]:
         p = write_replay(prop, v)
         paths.append(p)
         print(f"  violation: {v['signature']} :: {v['what']} ({v['count']} cases)")
